@@ -267,6 +267,7 @@ class CachedStoreTwoQueueDrv(_CachedDrv):
 
 
 class DatabaseDrv(Drv):
+    contention = True
     """max_connections 1: a second transaction waits for the connection while the first holds it for 3 latencies."""
     family = "datastore"
     covers = ("Database",)
